@@ -265,6 +265,18 @@ def subkey_search(ctx, P):
                   not bad, function=b.path, site=site(b, bad[0][0]) if bad else None, missing=('unconditional or unrelated early exit from the subkey loop at %s' % [site(b, u) for u, v in bad]) if bad else None)
 
 
+def adds_octets(ctx, b):
+    """The accumulation over the buffer is an addition of the widened octets: `sum()` of a map to u32, or a fold whose closure adds
+    (plain, wrapping or checked addition — all agree modulo 65536)."""
+    if b.calls(r'Iterator::sum$'):
+        return True
+    for r in ctx.f.closures_of(b.path):
+        cb = ctx.wrap(r)
+        if cb.calls(r'::wrapping_add$|::checked_add$|::overflowing_add$|ops::Add::add$') or any(st['r']['k'] == 'bin' and st['r']['op'] in ('Add', 'AddWithOverflow') for blk in cb.blocks for st in blk['s']):
+            return True
+    return False
+
+
 def checksum_helpers(ctx, P):
     """The helpers the plausibility rules rely on really compare: checksum::simple returns Ok only after a rejecting comparison of
     the octets it was given with calculate_simple of the data; the running sum keeps 16 bits of the octet sum."""
@@ -280,7 +292,7 @@ def checksum_helpers(ctx, P):
     b = ctx.body('<crypto::checksum::SimpleChecksum as std::hash::Hasher>::write')
     if b is not None:
         masks = [o['k']['v'] for blk in b.blocks for st in blk['s'] if st['r']['k'] == 'bin' and st['r']['op'] == 'BitAnd' for o in st['r']['o'] if 'k' in o and 'v' in o['k']]
-        ctx.check(P + ':checksum:sum-mod-65536', 'R-table', 'the simple checksum is the octet sum modulo 65536 (mask 0xffff)', masks == [0xFFFF] and bool(b.calls(r'Iterator::sum$')), function=b.path, table=masks)
+        ctx.check(P + ':checksum:sum-mod-65536', 'R-table', 'the simple checksum is the octet sum modulo 65536 (mask 0xffff)', masks == [0xFFFF] and bool(b.calls(r'Iterator::(sum|fold)$')) and adds_octets(ctx, b), function=b.path, table=masks)
 
 
 def locked_flag_of_same_key(ctx, P):
